@@ -330,5 +330,5 @@ static void wlDepth() {
 
 } // namespace
 
-HX_WORKLOAD("C06", "nested", wlNested, SF_ALL, 8000000, 8000000, 1);
+HX_WORKLOAD("C06", "nested", wlNested, SF_ALL | SF_TSO, 8000000, 8000000, 1);
 HX_WORKLOAD("C46", "depth", wlDepth, SF_DELAY_ONLY, 30000000, 10000000, 1);
